@@ -104,7 +104,7 @@ func c06Gen(r *driver.Rand, thorough bool) *driver.Plan {
 		p.N = 1 + r.Intn(3)
 		p.IntervalMs = driver.Pick(r, 10, 100, 0, 1+r.Intn(30))
 	case "Emit":
-		p.IntervalMs = driver.Pick(r, 1, 10, 1000, 1+r.Intn(40))
+		p.IntervalMs = driver.Pick(r, 1, 10, 1000, 1+r.Intn(40), 0)
 	case "Join":
 		k := driver.Pick(r, 0, 1, 2, 3, 5, 9, 17)
 		p.Inputs = nil
@@ -129,7 +129,7 @@ func c06Gen(r *driver.Rand, thorough bool) *driver.Plan {
 		p.Mode = driver.Pick(r, "pure", "lift")
 	}
 	if p.Mode != "pure" && r.Chance(1, 4) {
-		p.SetX("err_kind", 1+r.Intn(3))
+		p.SetX("err_kind", 1+r.Intn(5))
 	}
 	if stage == "StdErr" && r.Chance(1, 2) {
 		// the library's own error reader: many failures, of any kind
@@ -140,7 +140,7 @@ func c06Gen(r *driver.Rand, thorough bool) *driver.Plan {
 				p.FailAt = append(p.FailAt, i)
 			}
 		}
-		p.SetX("err_kind", r.Intn(4))
+		p.SetX("err_kind", r.Intn(6))
 	} else if p.Mode != "pure" && r.Chance(1, 2) {
 		k := 1 + r.Intn(2)
 		p.FailAt = nil
